@@ -322,10 +322,10 @@ class C08(Prop):
                 want = ys[0] if width_ == 1 else lagrange_at([Fraction(x) for x in xs], ys, tau)
                 scale = max([1.0] + [abs(float(y)) for y in ys])
                 eps = 2.0 ** -18 if info.ty == "f32" else 2.0 ** -40
-                # the position of frame n_ within the call is the sum of n_ + 1 steps, each rounded at the magnitude of the
-                # input span of one call; the value moves by at most ~4*scale per input frame
+                # the position of frame jj is the sum of jj steps (the carry between calls keeps what has accumulated), each
+                # rounded at the magnitude of the input span of one call; the value moves by at most ~4*scale per input frame
                 span = max(1, (fr["g"][1] if fr["g"] else 1))
-                pos_tol = 4.0 * scale * (n_ + 2) * span * 2.0 ** -52
+                pos_tol = 4.0 * scale * (jj + 2) * span * 2.0 ** -52
                 # ties of the Nearest kernel: an instant that is (numerically) an integer may legitimately fall either way
                 if width_ == 1 and abs(tau - round(tau)) < Fraction(1, 10 ** 6):
                     continue
